@@ -21,8 +21,11 @@ CONSTANTS Obj,            \* object -> [id, uid, flat (uid without dashes), arch
           BottomUp,             \* scope switch: children may be added to a variant that is not (yet) in the forest,
                                 \*   and the finished sub-tree attached afterwards
           Dev_UidSubtreeUnchecked, \* F-11f  only the UID of the added variant is compared, not those of the sub-tree it brings
-          Dev_TopKeepsParent       \* F-11g  a top-level add leaves (and validates against) the variant's old parent link
-VARIABLES kids,           \* [container -> [key -> object]]  children dictionaries (key = id)
+          Dev_TopKeepsParent,      \* F-11g  a top-level add leaves (and validates against) the variant's old parent link
+          UidKey(_),               \* the table key a UID makes (generation: tokens joined by dashes; recorded traces: the string)
+          KeyForms,                \* which spellings of add()'s optional variant_id are explored: "id" (the default), "uid", "other"
+          Dev_KeyUnchecked         \* F-11h  any variant_id is taken as the table key, the same variant may be filed under two keys
+VARIABLES kids,           \* [container -> [key -> object]]  children dictionaries (key = id; at the top level possibly the UID)
           par,            \* [object -> container or None]   parent back-pointers
           out
 Objs == DOMAIN Obj
@@ -60,27 +63,38 @@ UidFree(o) == IF BottomUp
               ELSE \A q \in Objs : (Obj[q].uid = Obj[o].uid /\ q # o) => ~IsFiled(q)
 \* the parent link the add creates (top level: none)
 NewPar(c, o) == IF Dev_TopKeepsParent /\ c = ROOT THEN par ELSE [par EXCEPT ![o] = IF c = ROOT THEN None ELSE c]
-AddOk(c, o) ==
-  LET p1 == NewPar(c, o)
+\* add(variant, variant_id=None): the key the variant is filed under.  Only its id - or, at the top level, its UID (how the
+\* loaders file 'Server-optional') - keeps it findable; and one variant has one key per container (get_variants: at most once)
+KeyOf(o, kf) == IF kf = "id" THEN Obj[o].id ELSE IF kf = "uid" THEN UidKey(Obj[o].uid) ELSE "no-such-name"
+KeyAllowed(c, o, kf) == KeyOf(o, kf) = Obj[o].id \/ (kf = "uid" /\ c = ROOT)
+NotTwice(c, o, key) == \A k \in DOMAIN kids[c] : kids[c][k] = o => k = key
+AddOkK(c, o, kf) ==
+  LET p1  == NewPar(c, o)
+      key == KeyOf(o, kf)
   IN  /\ ValidObj(o, p1, kids)
       /\ (Dev_UidCollision \/ UidFree(o))                         \* UIDs stay unique in the forest
       /\ (c # ROOT => o \notin Anc(c, p1, N))                     \* not its own ancestor
-      /\ (Obj[o].id \in DOMAIN kids[c] => kids[c][Obj[o].id] = o) \* id not taken by another variant
-Add(c, o) ==
-  LET p1 == NewPar(c, o)
-  IN IF AddOk(c, o)
-     THEN /\ kids' = [kids EXCEPT ![c] = [key \in DOMAIN kids[c] \cup {Obj[o].id} |->
-                                            IF key = Obj[o].id THEN o ELSE kids[c][key]]]
+      /\ (key \in DOMAIN kids[c] => kids[c][key] = o)             \* key not taken by another variant
+      /\ (Dev_KeyUnchecked \/ (KeyAllowed(c, o, kf) /\ NotTwice(c, o, key)))
+AddK(c, o, kf) ==
+  LET p1  == NewPar(c, o)
+      key == KeyOf(o, kf)
+  IN IF AddOkK(c, o, kf)
+     THEN /\ kids' = [kids EXCEPT ![c] = [k \in DOMAIN kids[c] \cup {key} |-> IF k = key THEN o ELSE kids[c][k]]]
           /\ par' = p1 /\ out' = "ok"
      ELSE /\ kids' = kids /\ out' = "ValueError"
           /\ par' = IF Dev_ParentSetFirst THEN p1 ELSE par
+AddOk(c, o) == AddOkK(c, o, "id")
+Add(c, o) == AddK(c, o, "id")
 \* scope of the property: a variant object that is already filed is re-added to the same container (duplicate), below
 \* itself (ancestor attempt) or at the top level (a child offered as a top-level variant: misaligned there, refused)
 Filed(o) == \E c \in Cont : o \in Range(kids[c])
 InScope(c, o) == Filed(o) => (o \in Range(kids[c]) \/ (c # ROOT /\ o \in Anc(c, par, N)) \/ c = ROOT)
 \* dashed top-level UIDs only on childless variants; no container that is not itself filed
 Attachable(c) == c = ROOT \/ (c # ROOT /\ (BottomUp \/ Filed(c)) /\ (par[c] = None => Len(Obj[c].uid) = 1))
-Next == \E c \in Cont, o \in Objs : InScope(c, o) /\ Attachable(c) /\ Add(c, o)
+\* only the top-level table's add() takes a variant_id (Variant.add(variant) has no such parameter)
+KeyFormsAt(c) == IF c = ROOT THEN KeyForms ELSE {"id"}
+Next == \E c \in Cont, o \in Objs : \E kf \in KeyFormsAt(c) : InScope(c, o) /\ Attachable(c) /\ AddK(c, o, kf)
 
 \* ---- growth beyond C11: VariantBase.__delitem__ (by id from the container; a dashed name walks the path).
 \* The entry disappears from the container's table; nothing else changes (the removed object keeps its parent link).
@@ -133,7 +147,8 @@ UidAligned   == \A o \in InForest : UidOk(o, par)
 ArchSubset   == \A o \in InForest : par[o] # None => Obj[o].arches \subseteq Obj[par[o]].arches
 UidUnique    == \A o, q \in InForest : Obj[o].uid = Obj[q].uid => o = q
 ParentMirror == \A c \in Cont : \A o \in Range(kids[c]) : (c = ROOT /\ par[o] = None) \/ (c # ROOT /\ par[o] = c)
-KeyIsId      == \A c \in Cont : \A k \in DOMAIN kids[c] : Obj[kids[c][k]].id = k
+KeyIsId      == \A c \in Cont : \A k \in DOMAIN kids[c] : Obj[kids[c][k]].id = k \/ (c = ROOT /\ k = UidKey(Obj[kids[c][k]].uid))
+OnceEach     == \A c \in Cont : \A k1, k2 \in DOMAIN kids[c] : kids[c][k1] = kids[c][k2] => k1 = k2
 Findable     == \A o \in InForest :
                    /\ LookupTop(o) = o
                    /\ (par[o] # None => LookupImpl(par[o], <<Obj[o].id>>) = o)
